@@ -445,6 +445,17 @@ impl World {
                     Item::Buf(b, p.wrapping_sub(base), n)
                 })
             }
+            (Res::Udp(s, _), 14) => {
+                let s = s.clone();
+                let clen = len.min(64);
+                multi!(s, s.recv_msg_multi(clen), |m: compio_driver::op::RecvMsgMultiResult| {
+                    let (p, n) = (m.data().as_ptr() as usize, m.data().len());
+                    // the fallback result holds a second BufferRef (control): dropped here
+                    let b: BufferRef = m.into_inner();
+                    let (_, base, _) = b.verif_identity();
+                    Item::Buf(b, p.wrapping_sub(base), n)
+                })
+            }
             _ => return Err(BadCase),
         };
         self.slots.push(Slot { fut: Some(fut), sh });
@@ -686,7 +697,7 @@ fn run(case: &[u64]) -> Result<Vec<u64>, BadCase> {
 
     for (op, a, b) in steps {
         match op {
-            1 | 2 | 11 | 12 => {
+            1 | 2 | 11 | 12 | 14 => {
                 if w.rt.is_none() {
                     continue;
                 }
